@@ -2,7 +2,7 @@ SPECIFICATION Spec
 CONSTANTS
   Cap = 2
   MaxEv = 5
-  Fix = {"agg-dedup", "passive-content-at-begin"}
+  Fix = {"agg-dedup", "passive-content-at-begin", "skip-partial-segments"}
   ReaderAtomic = FALSE
 INVARIANTS ReadExactlyOnce NoForeign
 CHECK_DEADLOCK FALSE
